@@ -2,6 +2,8 @@
 and the path's assumptions are converted to canonical ROBDD vectors (gbsa.bdd) and compared.  Only sound answers are
 returned: True / a constant when proved under the path condition, None when the terms leave the bit-vector fragment."""
 from .bdd import BDD, BV, TermBV, Unsupported
+import os
+_DEBUG = bool(os.environ.get('GBSA_DEBUG_DROP'))
 
 
 def _known(env):
@@ -41,7 +43,10 @@ def _setup(env, m=None, conv=None, rename=None, only=None, atoms=False):
         try:
             e = conv(t2).eq(v)
             K2 = m.AND(K, e if kind == 'eq' else m.NOT(e))
-        except Unsupported:
+        except Unsupported as ex:
+            if _DEBUG:
+                from .terms import fmt
+                print('bvproof: conjunct dropped (%s): %s %s %s' % (ex, kind, fmt(t2)[:300], v))
             conv.memo.pop(t2, None)
             continue
         finally:
